@@ -189,17 +189,18 @@ func init() {
 	addRules("C01", "R-SAMEFACE")
 	addRules("C02", "R-CONSTREL", "R-SOSDERIVE")
 	addRules("C03", "R-VERTEXSYM", "R-CONSTREL")
-	addRules("C04", "R-RESET", "R-FLAGS")
-	addRules("C05", "R-PADDING")
-	addRules("C06", "R-CLIPENDS")
-	addRules("C07", "R-ROLES")
-	addRules("C08", "R-CONSTREL")
-	addRules("C09", "R-FLAGS", "R-INITORDER", "R-PAIR")
-	addRules("C10", "R-PADDING", "R-CONSTREL")
+	addRules("C04", "R-RESET", "R-FLAGS", "R-PARTITION", "R-ALLLOOPS")
+	addRules("C05", "R-PADDING", "R-PARITY")
+	addRules("C06", "R-CLIPENDS", "R-RESET")
+	addRules("C07", "R-ROLES", "R-PARITY")
+	addRules("C08", "R-CONSTREL", "R-UNITS")
+	addRules("C15", "R-DERIVED")
+	addRules("C09", "R-DERIVED", "R-ALLLOOPS", "R-FLAGS", "R-INITORDER", "R-PAIR", "R-WIRECOUNT", "R-FIELDPAIR")
+	addRules("C10", "R-PADDING", "R-CONSTREL", "R-ALLLOOPS")
 	addRules("C13", "R-NOALIAS")
 	addRules("C14", "R-IDLE", "R-NOALIAS")
-	addRules("C18", "R-ROLES")
-	addRules("C19", "R-ROLES", "R-ORDERLAWS")
+	addRules("C18", "R-ROLES", "R-PARTITION", "R-ALLLOOPS")
+	addRules("C19", "R-ROLES", "R-ORDERLAWS", "R-EXPAND", "R-UNITS")
 }
 
 func init() {
@@ -213,17 +214,26 @@ func init() {
 		}
 		Properties[prop] = p
 	}
+	for prop, keys := range map[string][]string{
+		"C01": {"twin:s2.CellID."}, "C03": {"twin:s2.EdgeCrosser."}, "C05": {"ContainsCell", "IntersectsCell", "boundaryApproxIntersects", "RegionCoverer"}, "C07": {"anyLoop"}, "C10": {"Cell.latitude"},
+		"C06": {"clipUBound", "splitUBound", "twin:s2.PaddedCell."}, "C08": {"DistanceTo", "EdgeQuery", "minDistance"}, "C19": {"Rect.Lo"},
+	} {
+		pp := Properties[prop]
+		pp.Rules = append(pp.Rules, "R-TWIN")
+		Properties[prop] = pp
+		only(prop, map[string][]string{"R-TWIN": keys})
+	}
 	predicateConsts := []string{"maxDeterminantError", "detErrorMultiplier", "triage", "stableSign", "cosDistance", "sin2Distance", "s2.dblEpsilon", "s2.dblError", "r1.dblEpsilon", "s1.dblEpsilon"}
 	clipConsts := []string{"edgeClip", "faceClip", "intersectsRect", "cellPadding", "ShapeIndex)", "boundaryApproxIntersects", "ShrinkToFit"}
 	only("C01", map[string][]string{"R-CONST": {"Cell).ContainsPoint", "maxXYZtoUVError"}, "R-RANGE": {"CellID)", "CellUnion", "cellunion"}})
-	only("C02", map[string][]string{"R-CONST": predicateConsts, "R-CONSTREL": {"r3.MaxPrec", "stableSign"}})
-	only("C03", map[string][]string{"R-CONST": {"EdgeCrosser", "intersection", "projection"}, "R-CONSTREL": {"stableSign"}, "R-STAGES": {"RobustSign", "expensiveSign", "exactSign", "bound:", "symbolicallyPerturbedSign"}})
-	only("C05", map[string][]string{"R-CONST": clipConsts, "R-PADDING": {"boundaryApproxIntersects"}, "R-CYCLE": {"coverer", "CellUnionBound"}})
+	only("C02", map[string][]string{"R-CONST": predicateConsts, "R-CONSTREL": {"r3.MaxPrec", "stableSign", "maxDeterminantError"}})
+	only("C03", map[string][]string{"R-CONST": {"EdgeCrosser", "intersection", "projection"}, "R-CONSTREL": {"stableSign", "maxDeterminantError"}, "R-STAGES": {"RobustSign", "expensiveSign", "exactSign", "bound:", "symbolicallyPerturbedSign"}})
+	only("C05", map[string][]string{"R-CONST": clipConsts, "R-PADDING": {"boundaryApproxIntersects"}, "R-CYCLE": {"coverer", "CellUnionBound"}, "R-PARITY": {"iteratorContainsPoint"}})
 	only("C06", map[string][]string{"R-CONST": clipConsts})
-	only("C07", map[string][]string{"R-ROLES": {"hasCrossing", "(*s2.Loop)."}})
+	only("C07", map[string][]string{"R-ROLES": {"hasCrossing", "(*s2.Loop)."}, "R-PARITY": {"loopCrosser"}})
 	only("C08", map[string][]string{"R-CONSTREL": {"findEdgesInternal"}, "R-CYCLE": {"EdgeQuery", "CellUnionBound"}})
 	only("C09", map[string][]string{"R-CONST": {"siTitoPiQi"}, "R-SELFCMP": {"scan", "xyzToFaceSiTi", "stuv", "pointcompression", "s2."}})
-	only("C10", map[string][]string{"R-CONST": {"RectBounder", "ExpandForSubregions", "Cell).RectBound", "Cap).AddCap", "poleMinLat"}, "R-PADDING": {"Cap).RectBound"}, "R-CONSTREL": {"ExpandForSubregions"}})
+	only("C10", map[string][]string{"R-CONST": {"RectBounder", "ExpandForSubregions", "Cell).RectBound", "Cap).AddCap", "poleMinLat"}, "R-PADDING": {"Cap).RectBound"}, "R-CONSTREL": {"ExpandForSubregions", "RectBounder"}})
 	only("C18", map[string][]string{"R-CONST": {"turningAngleMaxError", "PointArea"}, "R-ROLES": {"CanonicalFirstVertex", "initOneLoop"}})
 	only("C19", map[string][]string{"R-ROLES": {"ChordAngle"}})
 	// error budgets of kernels whose own properties (C16, C17, C20) are not claimed are reported where the claimed
